@@ -4,6 +4,34 @@ import "verif/checker/internal/core"
 
 func init() {
 	register(&Prop{
+		ID:    "C17",
+		Rules: []*Rule{rMigration, rTypeKeyWho, rOpaque},
+		Explain: "Decides the registry discipline that the cross-version scenarios rest on: a migration target cannot be registered twice; getTypeDetails consults the registry on every call for every non-opaque error (no stale cached name); all identity consumers go through getTypeDetails; unknowing processes keep and re-emit the received (original) key; the module's own type keys of migrated types are computed after the migration is registered. " +
+			"NOT decided: order-independence of chained renames registered by users and the five cross-version scenarios as such (registry algorithm semantics over runtime configurations; observation O1 in DESIGN §6: A->B then B->C leaves C mapped to B).",
+		Trusted: []string{"go/ssa", "package initialisation order of the Go runtime"},
+	})
+	register(&Prop{
+		ID:    "C15",
+		Rules: []*Rule{rReport, rWalkMulti, rStackSlot, {Name: "R-TAINT/S5", Doc: "the S5 sub-class of R-TAINT: provenance of every value written into the Sentry message, exceptions and extras", Run: func(c *core.Ctx) { runTaintFiltered(c, func(s *Sink) bool { return s.Class == "S5" }) }},
+			{Name: "R-LOOP-EXITS", Doc: rLoopExits.Doc, Run: func(c *core.Ctx) { runLoopExits(c, map[string]bool{"report.visitAllMulti": true}) }}},
+		Explain: "Decides: nil gives (nil, nil); the layer walk visits every node of the tree; stacks and safe details are collected in lock-step per node; every exception's module is the error's domain; the message is laid out source location / redacted verbose rendering / composition; the 'error types' extra is the per-layer buffer; the stack re-parsing covers the same type keys as the one-line source; provenance of every event field (S5). " +
+			"NOT decided: counting/ordering relations over runtime lists (exactly one exception per stack, one type line per layer).",
+		Trusted: []string{"go/ssa", "sentry-go"},
+	})
+	register(&Prop{
+		ID:    "C20",
+		Rules: []*Rule{rGrpcFlow, rCodec},
+		Explain: "Decides the value flow through both interceptors (which value is inspected, encoded, returned on each edge) and slot agreement for withGrpcCode. NOT decided: equality with the direct EncodeError/DecodeError path (protobuf Any round trip and the gRPC runtime are outside the analysis).",
+		Trusted: []string{"go/ssa", "gogo/status, grpc"},
+	})
+	register(&Prop{
+		ID:    "C19",
+		Rules: []*Rule{rHintProviders, rOrder, rDedup, rFlattenSep, rGuardField, rLoopExits},
+		Explain: "Decides the structural side of the aggregation contract: the standard-hint providers exist and use the exported texts; hints/details accessors descend before they emit (innermost-first) while links/tags/safe-details append from the outermost layer; hints are appended only on the not-seen edge of a set keyed by the hint, details are not de-duplicated; both Flatten functions use the documented separator; optional members are emitted under a test of that very member; the walking loops have no early exit (every layer and every key is seen). " +
+			"NOT decided: exact list contents for all inputs.",
+		Trusted: []string{"go/ssa"},
+	})
+	register(&Prop{
 		ID:    "C12",
 		Rules: []*Rule{rRetain, rErrRefs, rHideKeep, rCodec},
 		Explain: "Decides that every input the library declares PII-free reaches a SAFE position (redact format string, redact.Safe argument, or a field handed out by SafeDetails()/printed as Safe) through every forwarding layer - so it is not redacted away; that captured error arguments are attached as secondary errors on every path; that content behind barriers/secondary errors is folded into SafeDetails() and printed; and (R-CODEC) that those fields have wire-slot agreement so they are still there after a hop. " +
@@ -77,14 +105,14 @@ func init() {
 	})
 	register(&Prop{
 		ID:    "C13",
-		Rules: []*Rule{rWalkMulti, rWrapDual},
+		Rules: []*Rule{rWalkMulti, rWrapDual, rTreeRec, rOpaque, {Name: "R-LOOP-EXITS", Doc: rLoopExits.Doc, Run: func(c *core.Ctx) { runLoopExits(c, map[string]bool{"markers.Is": true, "markers.IsAny": true, "report.visitAllMulti": true}) }}},
 		Explain: "Decides that every tree walker (Is, IsAny, As, formatter, report visitor, encoder) applies itself to each branch of every chain node's UnwrapMulti in forward order, and that multi-cause types are leaves for Unwrap/UnwrapOnce. " +
 			"NOT decided: 'exactly when' (no false positives of the search), Join dropping nils / nil result, Error() = newline-joined branch texts.",
 		Trusted: []string{"go/ssa"},
 	})
 	register(&Prop{
 		ID:    "C09",
-		Rules: []*Rule{rFmtDelegate, rShape, rDetailPrint, rVerbDispatch},
+		Rules: []*Rule{rFmtDelegate, rShape, rDetailPrint, rVerbDispatch, rGuardField},
 		Explain: "Decides the code-level reasons the verbs are mutually consistent: every instantiated library type routes Format through the single dispatcher FormatError; Error() and the detail formatter of each type agree on the message shape (so %v/%s = Error() at every depth); each wrapper's annotation fields reach a Print inside the detail region. " +
 			"NOT decided: width/precision/flag rendering (delegated to fmt), entry numbering/indentation and the 'Error types' line (loop arithmetic over runtime lists), comparison with reference renderings.",
 		Trusted: []string{"go/ssa", "fmt and redact formatting semantics"},
@@ -94,7 +122,7 @@ func init() {
 		Rules: []*Rule{rCmpGuard, {Name: "R-BOUNDS", Doc: rBounds.Doc + " (restricted to package markers: equalMarks' lock-step indexing is also the 'difference in chain length makes them different' clause)",
 			Run: func(c *core.Ctx) {
 				runBounds(c, func(rel, fn string) bool { return rel == "markers" })
-			}}, rRecover, rNilSafe, rMarkLayers},
+			}}, rRecover, rNilSafe, rMarkLayers, {Name: "R-LOOP-EXITS", Doc: rLoopExits.Doc, Run: func(c *core.Ctx) { runLoopExits(c, map[string]bool{"markers.Is": true, "markers.IsAny": true}) }}},
 		Explain: "Decides the totality clauses of Is/IsAny and the chain-length clause of mark equivalence: no unguarded interface comparison, no unproven lock-step index in markers, Error() of foreign errors only under recover, and no nil dereference reachable with nil inputs over the whole accessor surface. " +
 			"NOT decided: reflexivity, monotonicity under wrappers, IsAny = OR of Is, and 'exactly when' (semantic equivalences over all pairs of errors).",
 		Trusted: []string{"go/ssa", "reflect.Type.Comparable semantics", "nilness lattice"},
